@@ -435,6 +435,19 @@ def run_C20_asyncio(res, tier, seed, t_end):
             if cbs:
                 return '%d change callback(s) of the closed parked connection are still registered' % cbs
             return None if got == [b'elem'] else 'element pushed after the parked asyncio client was closed is gone: %r' % (got,)
+        if mode == 'parked-same-turn':
+            # the blocking pop is sent and the connection closed in one turn of the loop: the task is cancelled before its first step
+            conn = await a.connection_pool.get_connection('_')
+            await conn.send_command('BLPOP', 'q', 0)
+            await conn.disconnect()
+            await asyncio.sleep(0.02)
+            cbs = sum(len(db._change_callbacks) for db in srv.dbs.values())
+            leftovers.append(srv)
+            if cbs:
+                return '%d change callback(s) of a connection closed in the turn it parked are still registered' % cbs
+            await b.rpush('q', 'elem')
+            got = await b.lrange('q', 0, -1)
+            return None if got == [b'elem'] else 'element pushed after the parked asyncio client was closed is gone: %r' % (got,)
         if mode == 'watching':
             async with a.pipeline() as p:
                 await p.watch('k')
@@ -449,7 +462,7 @@ def run_C20_asyncio(res, tier, seed, t_end):
     def handler(loop, ctx):
         errors.append(repr(ctx.get('exception') or ctx.get('message')))
     for rnd in range(2 if tier == 'quick' else 20):
-        for mode in ('subscribed', 'psubscribed', 'parked', 'watching'):
+        for mode in ('subscribed', 'psubscribed', 'parked', 'parked-same-turn', 'watching'):
             loop = asyncio.new_event_loop()
             loop.set_exception_handler(handler)
             try:
@@ -458,7 +471,7 @@ def run_C20_asyncio(res, tier, seed, t_end):
                 loop.close()
             res.evaluations += 1
             res.cells.add(('aio-forget', mode))
-            if mode == 'parked' and not msg and leftovers:
+            if mode in ('parked', 'parked-same-turn') and not msg and leftovers:
                 # the loop of the closed client is gone: a later write by anybody must not trip over it
                 try:
                     fakeredis.FakeStrictRedis(server=leftovers[-1]).rpush('q', 'later')
